@@ -38,3 +38,29 @@ from . import e_c14
           'are symbolic in every input and child output, so the verdict holds for all children, inputs and steps.')
 def c14(F, R, tier):
     e_c14.run_c14(F, R)
+
+
+from . import e3_bounds
+
+
+@register('C18', 'proof',
+          'Static proof of bounded memory: for each view the largest inductive subset of a candidate family of length '
+          'invariants (Houdini over the value graph: true after every constructor, preserved by every exit of update()) '
+          'must contain, for every growable buffer (including those of inlined inner views), an upper bound in terms of '
+          'constructor parameters only; per-call scratch allocations must be parameter-bounded too. The invariant is '
+          'inductive with N symbolic, so the bound holds for all window lengths and all stream lengths; chains are '
+          'covered compositionally (each node owns its own buffers).')
+def c18(F, R, tier):
+    e3_bounds.run_bounds(F, R, want_c15=False, want_c18=True)
+    R.floor('M1-bounded', 34)
+
+
+@register('C15', 'other',
+          'Static discharge of every panic edge: each potentially panicking operation that rustc generated in view code '
+          '(MIR Assert terminators for usize overflow and bounds checks; calls to unwrap/expect/index/remove/clamp) is '
+          'mapped to an obligation of the value graph and proved from the inferred class invariant, the path condition '
+          'and loop index ranges by linear-integer entailment with N symbolic (all window lengths at once, all '
+          'histories because the invariant is inductive). Finiteness debug-assertions are not decided here (see C08 census).')
+def c15(F, R, tier):
+    e3_bounds.run_bounds(F, R, want_c15=True, want_c18=False)
+    R.decline('internal finiteness assertions (debug_assert!(x.is_finite())) are only covered through the guarded-division census of C08; overflow to inf of an unstable recursion is C09\'s clause')
